@@ -403,6 +403,17 @@ func (x *Exec) claimPaid(n *node.Node) bool {
 	return false
 }
 
+// CSV is the CSV of the configuration's chain (protocol 7).
+func (x *Exec) CSV() uint32 { return x.csv() }
+
+// Silence makes the peer silent: everything queued in either direction is dropped.
+func (x *Exec) Silence() {
+	x.netMu.Lock()
+	x.Net[IDA] = nil
+	x.Net[IDB] = nil
+	x.netMu.Unlock()
+}
+
 func (x *Exec) csv() uint32 {
 	if x.Cfg.Chain == "btc" {
 		return 1008
